@@ -1070,7 +1070,22 @@ class FnTranslator:
                 out.extend(self.do_return(st, ctx))
                 return out
             if isinstance(st, ast.Raise):
-                out.append(("raise", self.exc_of(st)))
+                exc = self.exc_of(st)
+                # the arguments of the exception constructor are evaluated first, in order: a call among them that raises
+                # wins (e.g. `raise AmbiguousTimeError(build(early), build(late))`); their values are then discarded
+                if isinstance(st.exc, ast.Call):
+                    def can_raise_(e_):
+                        return any(isinstance(n_, (ast.Call, ast.Subscript, ast.BinOp, ast.NamedExpr, ast.Await, ast.Yield))
+                                   for n_ in ast.walk(e_))
+                    for a_ in list(st.exc.args) + [k_.value for k_ in st.exc.keywords]:
+                        parts_ = ([v_.value for v_ in a_.values if isinstance(v_, ast.FormattedValue)]
+                                  if isinstance(a_, ast.JoinedStr) else [a_])
+                        for e_ in parts_:
+                            if can_raise_(e_):
+                                pre_ = []
+                                self.expr(e_, ctx, pre_)
+                                out.extend(pre_)
+                out.append(("raise", exc))
                 return out
             nr = self.noreturn_helper(st)
             if nr is not None:
